@@ -44,8 +44,10 @@ func (vc *VC) primitiveMod(f *ssa.Function, c *ssa.CallCommon, li *loopInfo) {
 	case strings.HasPrefix(n, "(*sync.WaitGroup)"):
 		vc.addrMod(c.Args[0], nil, li)
 		li.mod["G:$wgdone"] = true
-	case n == "(*sync.Cond).Broadcast", n == "(*sync.Cond).Signal":
+	case n == "(*sync.Cond).Broadcast":
 		li.mod["G:$broadcasts"] = true
+	case n == "(*sync.Cond).Signal":
+		li.mod["G:$condsignals"] = true
 	case n == "(*sync.Cond).Wait":
 		// other goroutines run while waiting: they may change what this function's contract lists in modifies
 		if vc.fc == nil || len(vc.fc.clauses("modifies")) == 0 {
@@ -153,6 +155,14 @@ func (st *State) primitive(f *ssa.Function, args []Val, site ssa.Instruction) (V
 	case "(*sync/atomic.Uint32).CompareAndSwap":
 		p := recvPtr()
 		cur := st.load(p, false).(TV).T
+		if vc.mode == "B2" && !st.nonnil["fresh:"+p.Base.S] {
+			// B2-lite: between the earlier Load that produced the expected value and this compare-and-swap another goroutine may
+			// have changed the variable: the value the CAS meets is either the one this path knows or an arbitrary other one
+			interf := st.declare("cas.interf", SBool)
+			other := st.declare("cas.other", SInt)
+			st.assumeRange(other, types.Typ[types.Uint32])
+			cur = st.define("cas.cur", tIte(interf, other, cur))
+		}
 		ok := tEq(cur, args[1].(TV).T)
 		nv := st.define("cas", tIte(ok, args[2].(TV).T, cur))
 		st.store(p, TV{nv, p.Elem})
@@ -182,9 +192,14 @@ func (st *State) primitive(f *ssa.Function, args []Val, site ssa.Instruction) (V
 		r := st.allocRef("cond")
 		return TV{r, f.Signature.Results().At(0).Type()}, true
 	case "(*sync.Cond).Broadcast", "(*sync.Cond).Signal":
+		// Broadcast wakes every waiter, Signal at most one: they are different events ($broadcasts[c] / $condsignals[c])
 		c := st.termOf(args[0])
 		st.nilCheck(c, fmt.Sprintf("cond-nil#%d", vc.ordinals[site]), "sync.Cond receiver")
-		st.ghostCount("broadcasts", c)
+		if n == "(*sync.Cond).Signal" {
+			st.ghostCount("condsignals", c)
+		} else {
+			st.ghostCount("broadcasts", c)
+		}
 		return TupleV{}, true
 	case "(*sync.Cond).Wait":
 		// releases the lock, other goroutines run: what they may change is what this function's contract lists in `modifies`;
@@ -438,6 +453,10 @@ func (st *State) guardCheck(p PtrV, write bool, site ssa.Instruction, addrOnly b
 		if write {
 			acc = "write"
 		}
+		if vc.guardHits == nil {
+			vc.guardHits = map[string]bool{}
+		}
+		vc.guardHits[r.root+"."+r.field] = true
 		st.oblige("guard", fmt.Sprintf("%s.%s@%s#%d", shortRoot(p.Root), p.Path, acc, vc.ordinals[site]), tBool(okk), fmt.Sprintf("%s of %s.%s requires %s", acc, p.Root, p.Path, r.lock))
 		return
 	}
